@@ -132,15 +132,19 @@ func judgeRoundTrip(c *core.Ctx, text string) {
 	// key lists
 	if in.K == jr.Obj {
 		for _, api := range []string{"UnmarshalWithKeys", "UnmarshalValidWithKeys"} {
-			for _, target := range []string{"map[string]any", "map[string]*RawMessage"} {
+			for _, target := range []string{"map[string]any", "map[string]*RawMessage", "any"} {
 				var keys []string
 				var err error
 				pn := mon.Try(func() {
 					var t1 map[string]any
 					var t2 map[string]*ij.RawMessage
+					var t3 any
 					var tp any = &t1
-					if target != "map[string]any" {
+					switch target {
+					case "map[string]*RawMessage":
 						tp = &t2
+					case "any":
+						tp = &t3
 					}
 					if api == "UnmarshalWithKeys" {
 						keys, err = ij.UnmarshalWithKeys(b, tp)
@@ -540,24 +544,24 @@ func init() {
 			return out
 		},
 		Families: []core.Family{
-			{Name: "roundtrip-and-keys", Count: n(30000, 800000), Run: func(c *core.Ctx, idx int) {
+			{Name: "roundtrip-and-keys", Count: n(30000, 2400000), Run: func(c *core.Ctx, idx int) {
 				if idx%3 == 0 {
 					judgeRoundTrip(c, prof.Object(c.R, 1+c.R.Intn(4)))
 				} else {
 					judgeRoundTrip(c, prof.Any(c.R))
 				}
 			}},
-			{Name: "transforms", Count: n(30000, 800000), Run: func(c *core.Ctx, idx int) {
+			{Name: "transforms", Count: n(30000, 2400000), Run: func(c *core.Ctx, idx int) {
 				t := prof.Any(c.R)
 				if idx%4 == 0 {
 					t = gen.Mutate(c.R, t, prof.Any(c.R))
 				}
 				judgeTransforms(c, t)
 			}},
-			{Name: "marshal-go-values", Count: n(30000, 800000), Run: func(c *core.Ctx, idx int) {
+			{Name: "marshal-go-values", Count: n(30000, 2400000), Run: func(c *core.Ctx, idx int) {
 				judgeMarshal(c, genGo(c.R, 3), "dynamic")
 			}},
-			{Name: "generated-struct-types", Count: n(400, 4000), Run: func(c *core.Ctx, idx int) {
+			{Name: "generated-struct-types", Count: n(400, 12000), Run: func(c *core.Ctx, idx int) {
 				var t reflect.Type
 				pn := mon.Try(func() { t = genStructType(c.R, 2) })
 				if pn != nil || t == nil {
@@ -604,7 +608,7 @@ func init() {
 					judgeMarshal(c, v, "float-spelling")
 				}
 			}},
-			{Name: "numbers-and-misuse", Count: n(6000, 120000), Run: func(c *core.Ctx, idx int) {
+			{Name: "numbers-and-misuse", Count: n(6000, 360000), Run: func(c *core.Ctx, idx int) {
 				// Number accessors against encoding/json's, and the misuse errors (nil / non-pointer target)
 				lit := gen.OddNumbers[c.R.Intn(len(gen.OddNumbers))]
 				if c.R.Intn(3) == 0 {
@@ -641,7 +645,7 @@ func init() {
 				}
 				c.Count("numbers-and-misuse:ok")
 			}},
-			{Name: "fork-only-marshalers", Count: n(10000, 200000), Run: func(c *core.Ctx, idx int) {
+			{Name: "fork-only-marshalers", Count: n(10000, 600000), Run: func(c *core.Ctx, idx int) {
 				// RedirectMarshaler / TrustMarshaler (what the patch package encodes its nodes through): wherever
 				// such a value stands - alone, behind a pointer, in a slice, a map, a struct field - the bytes must
 				// be those of the value it redirects to / the bytes it wrote, under both escape settings
@@ -696,7 +700,7 @@ func init() {
 				c.Count("fork-only:ok")
 				c.Nontrivial("fo", fmt.Sprintf("%#v", v), fmt.Sprint(esc))
 			}},
-			{Name: "typed-basic-targets", Count: n(20000, 400000), Run: func(c *core.Ctx, idx int) {
+			{Name: "typed-basic-targets", Count: n(20000, 1200000), Run: func(c *core.Ctx, idx int) {
 				t := fieldTypes[c.R.Intn(len(fieldTypes))]
 				text := genTextFor(c.R, t, 3)
 				if idx%5 == 0 {
@@ -704,7 +708,7 @@ func init() {
 				}
 				judgeTyped(c, t, text)
 			}},
-			{Name: "streams", Count: n(20000, 400000), Run: func(c *core.Ctx, idx int) {
+			{Name: "streams", Count: n(20000, 1200000), Run: func(c *core.Ctx, idx int) {
 				var sb strings.Builder
 				for k := 1 + c.R.Intn(4); k > 0; k-- {
 					sb.WriteString(prof.Any(c.R))
